@@ -153,7 +153,7 @@ def run(chk: Check) -> None:
     c19_xml.check_xml(chk)
     chk.assumptions += [
         "regex: the pattern is a plain word, one edit per matching line",
-        "XML: documents are compared as expat event lists; whitespace-only text between elements is insignificant; DTD internal subsets are not generated",
+        "XML: documents are compared as expat event lists; whitespace-only text between elements is insignificant; the only DTD internal subset generated declares a default attribute (entity declarations are refused by the hardened parser); documents are UTF-8 or ISO-8859-1",
     ]
 
 
